@@ -636,3 +636,291 @@ Proof.
   destruct (start n id0 pid probe) as [s0 out0]. cbn [fst snd] in *.
   rewrite (mon_run_model n ops g0 s0 out0 I Wf). reflexivity.
 Qed.
+
+(** ---- state-level statements behind the clauses ---- *)
+Inductive reachable (n : Z) : st -> Prop :=
+| reach_start : forall id0 pid probe, reachable n (fst (start n id0 pid probe))
+| reach_step : forall s o, reachable n s -> wf_op n o -> reachable n (fst (step true s o)).
+
+Lemma reachable_inv : forall n s, 0 <= n -> reachable n s -> exists g, Inv n g s.
+Proof.
+  intros n s Hn R. induction R as [id0 pid probe|s o R [g I] W].
+  - exists g0. apply start_inv; auto.
+  - destruct (step true s o) as [s' out] eqn:S.
+    destruct (step_ok n g s [] o s' out I W S) as [_ I']. eexists; exact I'.
+Qed.
+
+(** Every REG1 the model emits: exactly one in that step, to an uplink [j] of the run, with
+    nothing awaited before or the same uplink awaited (a housekeeping re-transmission);
+    afterwards [j] is the awaited uplink with a deadline REG2_TIMEOUT s ahead; and unless it is
+    such a re-transmission, no uplink is connected at that moment. *)
+Lemma step_reg1 : forall n g s o s' out,
+  Inv n g s -> wf_op n o -> step true s o = (s', out) ->
+  reg1_of out = [] \/
+  exists j, reg1_of out = [j] /\ 0 <= j < n /\
+    r_pending (s_reg s') = Some j /\ r_ptimeout (s_reg s') = op_now o + REG2_WAIT_MS /\
+    ((is_tick o = true /\ r_pending (s_reg s) = Some j) \/
+     (r_pending (s_reg s) = None /\ none_conn (s_conn s'))).
+Proof.
+  intros n g s o s' out I W S. destruct o as [i t|i l tg t|i t|i t|t a d]; cbn [wf_op] in W;
+    cbn [step] in S; try (inversion S; subst; left; reflexivity).
+  - (* Ngp *)
+    destruct W as [Hi Ht]. destruct s as [r conn]. cbn [s_reg s_conn] in *.
+    pose proof (inv_wait _ _ _ I) as Iwait. pose proof (inv_active _ _ _ I) as Iact. cbn [s_reg s_conn] in *.
+    unfold handle_reg_ngp in S.
+    destruct (pstate_eqb (r_pstate r) PWaiting) eqn:Ew.
+    + assert (Wt : r_pstate r = PWaiting) by (destruct (r_pstate r); cbn in Ew; congruence).
+      destruct (Iwait Wt) as (Wp & Wtg & _).
+      unfold handle_probe_response, reg1_if_ngp_immediate in S. rewrite Ew in S. rsimpl_in S.
+      rewrite Wtg in S. cbn [opt_is] in S. rewrite !andb_false_r in S. cbn [andb] in S.
+      inversion S; subst. left; reflexivity.
+    + destruct ((r_active r =? 0) && is_none (r_pending r)) eqn:Ec.
+      * apply andb_true_iff in Ec as [Ea Ep]. apply is_none_true in Ep.
+        unfold reg1_if_ngp_immediate in S. rsimpl_in S. rewrite Ea, Ep in S. cbn [is_none opt_is andb] in S.
+        rewrite Z.eqb_refl, Z.leb_refl in S. cbn [andb build_reg1_for] in S. rsimpl_in S.
+        inversion S; subst s' out; clear S. right. exists i. rsimpl. cbn [op_now is_tick].
+        split; [reflexivity|]. split; [auto|]. split; [reflexivity|]. split; [reflexivity|].
+        right. split; [auto|]. apply Iact. lia.
+      * unfold reg1_if_ngp_immediate in S. rewrite Ec in S. cbn [andb] in S.
+        inversion S; subst. left; reflexivity.
+  - (* Tick *)
+    pose proof (tick_facts _ _ _ _ _ _ _ _ I W S) as F. destruct (tf_reg1 _ _ _ _ _ _ F) as [(R1 & _)|(j & R1 & Hj & _ & Fp & _ & Fpt & Hc)].
+    + left; exact R1.
+    + right. exists j. cbn [op_now is_tick]. repeat (split; [assumption|]).
+      destruct Hc as [Hc|Hc]; [left; split; [reflexivity|exact Hc]|right; exact Hc].
+Qed.
+
+Lemma reg1_of_in : forall l p, In p l -> pk_kind p = K_REG1 -> In (pk_dst p) (reg1_of l).
+Proof.
+  intros l p Hin Hk. unfold reg1_of. apply in_map. apply filter_In. split; auto. rewrite Hk. reflexivity.
+Qed.
+
+Lemma step_pkts : forall n g s o s' out,
+  Inv n g s -> wf_op n o -> step true s o = (s', out) -> pkts_ok (r_id (s_reg s')) out.
+Proof.
+  intros n g s o s' out I W S.
+  destruct (step_ok n g s [] o s' out I W S) as [A _].
+  unfold all_true, clauses in A. cbn [forallb] in A.
+  repeat (apply andb_true_iff in A; destruct A as [? A]).
+  match goal with H : cl5 _ = true |- _ => unfold cl5 in H; osimpl_in H; rename H into C5 end.
+  rewrite forallb_forall in C5. apply Forall_forall. intros p Hp. specialize (C5 p Hp).
+  apply andb_true_iff in C5 as [K Hid]. apply orb_true_iff in K. split; [|lia].
+  destruct K; [left|right]; lia.
+Qed.
+
+Lemma step_id : forall n g s o s' out,
+  Inv n g s -> wf_op n o -> step true s o = (s', out) ->
+  r_id (s_reg s') = r_id (s_reg s) \/
+  exists i len tag now, o = Reg2 i len tag now /\ r_pending (s_reg s) = Some i /\
+    REG2_MIN_LEN <= len /\ r_id (s_reg s') = tag /\ r_pending (s_reg s') = None /\
+    r_flag (s_reg s') = true /\ r_target (s_reg s') = None.
+Proof.
+  intros n g s o s' out I W S.
+  assert (Hother : is_reg2 o = false -> r_id (s_reg s') = r_id (s_reg s)).
+  { intro Hr. destruct (step_ok n g s [] o s' out I W S) as [A _].
+    unfold all_true, clauses in A. cbn [forallb] in A.
+    repeat (apply andb_true_iff in A; destruct A as [? A]).
+    match goal with H : cl3 _ _ _ _ = true |- _ => unfold cl3, accepted in H; rewrite Hr in H;
+      cbn [andb] in H; osimpl_in H; lia end. }
+  destruct o as [i t|i l tg t|i t|i t|t a d]; try (left; apply Hother; reflexivity).
+  cbn [step] in S. unfold handle_reg2 in S.
+  destruct (l <? REG2_MIN_LEN) eqn:El; [inversion S; subst; left; reflexivity|].
+  destruct (opt_is (r_pending (s_reg s)) i) eqn:Ep; [|inversion S; subst; left; reflexivity].
+  apply opt_is_true in Ep. inversion S; subst. right. exists i, l, tg, t. rsimpl.
+  repeat (split; [first [reflexivity|assumption|lia]|]). reflexivity.
+Qed.
+
+Lemma nth_set_nth : forall l i v k, 0 <= i -> 0 <= k ->
+  nth (Z.to_nat k) (set_nth l i v) false = true ->
+  nth (Z.to_nat k) l false = true \/ (k = i /\ v = true).
+Proof.
+  induction l as [|c t IH]; intros i v k Hi Hk H; cbn [set_nth] in H; auto.
+  destruct (i =? 0) eqn:E.
+  - assert (i = 0) by lia; subst i. destruct (Z.to_nat k) eqn:Ek; cbn [nth] in *.
+    + right. split; [lia|exact H].
+    + left; exact H.
+  - destruct (Z.to_nat k) eqn:Ek; cbn [nth] in *; auto.
+    replace n with (Z.to_nat (k - 1)) in * by lia.
+    destruct (IH (i - 1) v (k - 1) ltac:(lia) ltac:(lia) H) as [A|[A B]]; [left; exact A|right; split; [lia|exact B]].
+Qed.
+
+Lemma conn_drop_nth : forall a b k, conn_drop a b -> nth k b false = true -> nth k a false = true.
+Proof.
+  intros a b k H; revert k. induction H as [|x y l l' H H2 IH]; intros k Hk; destruct k; cbn [nth] in *; auto.
+Qed.
+
+Lemma step_conn : forall n g s o s' out k,
+  Inv n g s -> wf_op n o -> step true s o = (s', out) -> 0 <= k ->
+  nth (Z.to_nat k) (s_conn s') false = true ->
+  nth (Z.to_nat k) (s_conn s) false = true \/ exists t, o = Reg3 k t.
+Proof.
+  intros n g s o s' out k I W S Hk H. destruct o as [i t|i l tg t|i t|i t|t a d]; cbn [step wf_op] in *.
+  - left. destruct (reg1_if_ngp_immediate _ _ _) as [r2 o2]. inversion S; subst. exact H.
+  - left. inversion S; subst. exact H.
+  - inversion S; subst. cbn [s_conn] in H.
+    destruct (nth_set_nth (s_conn s) i true k ltac:(lia) Hk H) as [A|[A _]]; [left; exact A|right; subst; eexists; reflexivity].
+  - inversion S; subst. cbn [s_conn] in H.
+    destruct (nth_set_nth (s_conn s) i false k ltac:(lia) Hk H) as [A|[_ A]]; [left; exact A|discriminate].
+  - left. pose proof (tf_conn _ _ _ _ _ _ (tick_facts _ _ _ _ _ _ _ _ I W S)) as D.
+    eapply conn_drop_nth; eauto.
+Qed.
+
+Lemma step_regerr : forall fx s i now,
+  r_pending (s_reg (fst (step fx s (RegErr i now)))) = None /\
+  r_target (s_reg (fst (step fx s (RegErr i now)))) = None /\
+  snd (step fx s (RegErr i now)) = [].
+Proof. intros. cbn. auto. Qed.
+
+(** a REG1 awaited on [j]: a pass at or after the deadline abandons it (and sends no REG1),
+    a pass before the deadline keeps it *)
+Lemma tick_timeout : forall n g s now amb due s' out j,
+  Inv n g s -> 0 <= now -> r_pending (s_reg s) = Some j -> tick s now amb due = (s', out) ->
+  (r_ptimeout (s_reg s) <= now ->
+     r_pending (s_reg s') = None /\ r_target (s_reg s') = None /\ reg1_of out = []) /\
+  (now < r_ptimeout (s_reg s) -> r_pending (s_reg s') = Some j).
+Proof.
+  intros n g s now amb due s' out j I Hnow Hp T.
+  pose proof (tick_facts _ _ _ _ _ _ _ _ I Hnow T) as F. pose proof (tf_reg1 _ _ _ _ _ _ F) as R.
+  unfold texp in R. rewrite Hp in R. cbn [is_some is_none negb andb] in R. split; intro Hd.
+  - replace (r_ptimeout (s_reg s) <=? now) with true in R by lia.
+    destruct R as [(R1 & Fp & _ & Ft)|(j' & _ & _ & Etx & _)]; [|discriminate]. auto.
+  - replace (r_ptimeout (s_reg s) <=? now) with false in R by lia.
+    destruct R as [(R1 & Fp & _)|(j' & _ & _ & _ & Fp & _ & _ & [Hc|[Hc _]])]; congruence.
+Qed.
+
+(** nothing awaited, no uplink counted active, not waiting for probes: a REG_NGP is answered
+    by a REG1 on that uplink at once *)
+Lemma ngp_progress : forall fx s i now,
+  r_pending (s_reg s) = None -> r_active (s_reg s) = 0 -> r_pstate (s_reg s) <> PWaiting ->
+  snd (step fx s (Ngp i now)) = [(K_REG1, i, r_id (s_reg s))] /\
+  r_pending (s_reg (fst (step fx s (Ngp i now)))) = Some i.
+Proof.
+  intros fx [r conn] i now Hp Ha Hw. cbn [step s_reg s_conn] in *. unfold handle_reg_ngp.
+  replace (pstate_eqb (r_pstate r) PWaiting) with false by (destruct (r_pstate r); cbn; congruence).
+  rewrite Hp, Ha. cbn [Z.eqb is_none andb]. unfold reg1_if_ngp_immediate. rsimpl.
+  cbn [Z.eqb is_none opt_is andb]. rewrite Z.eqb_refl, Z.leb_refl. cbn [andb build_reg1_for fst snd]. rsimpl. auto.
+Qed.
+
+(** REG2 rounds: in a pass every uplink gets the broadcast iff one is owed (the flag), plus
+    at most one re-join REG2 if the pass resets that uplink; the flag is consumed *)
+Lemma tick_bcast : forall n g s now amb due s' out,
+  Inv n g s -> 0 <= now -> tick s now amb due = (s', out) ->
+  r_flag (s_reg s') = false /\
+  forall k, 0 <= k < n ->
+    Z.b2z (r_flag (s_reg s)) <= reg2_cnt out k <= Z.b2z (r_flag (s_reg s)) + Z.b2z (memz k due).
+Proof.
+  intros n g s now amb due s' out I Hnow T. pose proof (tick_facts _ _ _ _ _ _ _ _ I Hnow T) as F.
+  split; [exact (tf_flag _ _ _ _ _ _ F)|exact (tf_cnt _ _ _ _ _ _ F)].
+Qed.
+
+Lemma no_reg2_cnt : forall l, forallb (fun p => negb (pk_kind p =? K_REG2)) l = true ->
+  forall k, reg2_cnt l k = 0.
+Proof.
+  induction l as [|p l IH]; intros H k; [reflexivity|].
+  cbn [forallb] in H. apply andb_true_iff in H as [Ha Hb]. apply negb_true_iff in Ha.
+  rewrite reg2_cnt_cons, (IH Hb). unfold reg2_cnt. cbn [filter]. rewrite Ha. reflexivity.
+Qed.
+
+(** outside a pass no REG2 is emitted, and the broadcast flag rises exactly on an accepted REG2 *)
+Lemma step_flag : forall n g s o s' out,
+  Inv n g s -> wf_op n o -> step true s o = (s', out) -> is_tick o = false ->
+  (forall k, reg2_cnt out k = 0) /\
+  r_flag (s_reg s') = r_flag (s_reg s) || accepted (obs_of s []) o (obs_of s' out).
+Proof.
+  intros n g s o s' out I W S Ht.
+  destruct (step_ok n g s [] o s' out I W S) as [A I'].
+  split.
+  - unfold all_true, clauses in A. cbn [forallb] in A.
+    repeat (apply andb_true_iff in A; destruct A as [? A]).
+    match goal with H : cl4 _ _ _ _ = true |- _ => unfold cl4 in H; rename H into C4 end.
+    destruct o; try discriminate; osimpl_in C4; apply no_reg2_cnt; exact C4.
+  - pose proof (inv_owed _ _ _ I') as O'. pose proof (inv_owed _ _ _ I) as O.
+    unfold ghost_next in O'. cbn [g_owed] in O'. rewrite Ht in O'. rewrite <- O', O. reflexivity.
+Qed.
+
+(** ---- the same facts, for every state reachable from start-up by well-formed events ---- *)
+Section Reach.
+Context (n : Z) (Hn : 0 <= n) (s : st) (R : reachable n s) (o : op) (W : wf_op n o).
+Let s' := fst (step true s o).
+Let out := snd (step true s o).
+
+Lemma step_eq : step true s o = (s', out).
+Proof. unfold s', out. destruct (step true s o); reflexivity. Qed.
+
+Lemma reach_single_outstanding : forall p, In p out -> pk_kind p = K_REG1 ->
+  reg1_of out = [pk_dst p] /\ 0 <= pk_dst p < n /\
+  (r_pending (s_reg s) = None \/ r_pending (s_reg s) = Some (pk_dst p)) /\
+  r_pending (s_reg s') = Some (pk_dst p) /\
+  r_ptimeout (s_reg s') = op_now o + REG2_WAIT_MS.
+Proof.
+  intros p Hin Hk. destruct (reachable_inv n s Hn R) as [g I].
+  pose proof (reg1_of_in _ _ Hin Hk) as Hd.
+  destruct (step_reg1 n g s o s' out I W step_eq) as [E|(j & E & Hj & Hp & Ht & Hc)].
+  - rewrite E in Hd. contradiction.
+  - rewrite E in Hd. destruct Hd as [Hd|[]]. subst j.
+    repeat (split; [assumption|]). split; [|split; assumption].
+    destruct Hc as [[_ Hc]|[Hc _]]; auto.
+Qed.
+
+Lemma reach_reg1_only_unregistered : forall p, In p out -> pk_kind p = K_REG1 ->
+  (is_tick o = true /\ r_pending (s_reg s) = Some (pk_dst p)) \/ none_conn (s_conn s').
+Proof.
+  intros p Hin Hk. destruct (reachable_inv n s Hn R) as [g I].
+  pose proof (reg1_of_in _ _ Hin Hk) as Hd.
+  destruct (step_reg1 n g s o s' out I W step_eq) as [E|(j & E & Hj & Hp & Ht & Hc)].
+  - rewrite E in Hd. contradiction.
+  - rewrite E in Hd. destruct Hd as [Hd|[]]. subst j.
+    destruct Hc as [Hc|[_ Hc]]; auto.
+Qed.
+
+Lemma reach_active : r_active (s_reg s) = 0 -> none_conn (s_conn s).
+Proof. destruct (reachable_inv n s Hn R) as [g I]. exact (inv_active _ _ _ I). Qed.
+
+Lemma reach_id : r_id (s_reg s') = r_id (s_reg s) \/
+  exists i len tag now, o = Reg2 i len tag now /\ r_pending (s_reg s) = Some i /\
+    REG2_MIN_LEN <= len /\ r_id (s_reg s') = tag /\ r_pending (s_reg s') = None /\
+    r_flag (s_reg s') = true /\ r_target (s_reg s') = None.
+Proof. destruct (reachable_inv n s Hn R) as [g I]. exact (step_id n g s o s' out I W step_eq). Qed.
+
+Lemma reach_pkts : pkts_ok (r_id (s_reg s')) out.
+Proof. destruct (reachable_inv n s Hn R) as [g I]. exact (step_pkts n g s o s' out I W step_eq). Qed.
+
+Lemma reach_conn : forall k, 0 <= k -> nth (Z.to_nat k) (s_conn s') false = true ->
+  nth (Z.to_nat k) (s_conn s) false = true \/ exists t, o = Reg3 k t.
+Proof.
+  intros k Hk H. destruct (reachable_inv n s Hn R) as [g I].
+  exact (step_conn n g s o s' out k I W step_eq Hk H).
+Qed.
+
+Lemma reach_rounds :
+  match o with
+  | Tick now amb due =>
+    r_flag (s_reg s') = false /\
+    forall k, 0 <= k < n ->
+      Z.b2z (r_flag (s_reg s)) <= reg2_cnt out k <= Z.b2z (r_flag (s_reg s)) + Z.b2z (memz k due)
+  | _ =>
+    (forall k, reg2_cnt out k = 0) /\
+    r_flag (s_reg s') = r_flag (s_reg s) || accepted (obs_of s []) o (obs_of s' out)
+  end.
+Proof.
+  destruct (reachable_inv n s Hn R) as [g I]. pose proof step_eq as S.
+  destruct o; try (apply (step_flag n g s _ s' out I W S); reflexivity).
+  cbn [wf_op] in W. cbn [step] in S. exact (tick_bcast n g s _ _ _ s' out I W S).
+Qed.
+
+Lemma reach_timeout : forall j now amb due, o = Tick now amb due -> r_pending (s_reg s) = Some j ->
+  (r_ptimeout (s_reg s) <= now ->
+     r_pending (s_reg s') = None /\ r_target (s_reg s') = None /\ reg1_of out = []) /\
+  (now < r_ptimeout (s_reg s) -> r_pending (s_reg s') = Some j).
+Proof.
+  intros j now amb due Eo Hp. destruct (reachable_inv n s Hn R) as [g I]. pose proof step_eq as S.
+  subst o. cbn [wf_op] in W. cbn [step] in S. exact (tick_timeout n g s now amb due s' out j I W Hp S).
+Qed.
+End Reach.
+
+(** ---- the defect the check found, kept as a statement about the code before the fix ---- *)
+Definition f4_ops : list op :=
+  [Ngp 0 10; Reg2 0 258 7 20; Tick 30 30 []; Reg3 0 40; Ngp 1 50].
+
+Lemma f4_refuted : wf_ops 2 f4_ops = true /\ mon_C07 2 f4_ops (run false 2 0 1 None f4_ops) = 2%N.
+Proof. split; vm_compute; reflexivity. Qed.
